@@ -4,6 +4,7 @@ import os, sys
 VERIF = os.path.dirname(os.path.dirname(os.path.abspath(__file__)))
 REPO = os.environ.get('DEPCCG_REPO', '/repo')
 HARNESS = os.path.join(VERIF, 'harness')
+COQC = os.path.join(HARNESS, 'coqc_big')       # coqc with a large stack (see the script)
 COQ = os.path.join(VERIF, 'coq')
 WORK = os.environ.get('DEPCCG_VERIF_WORK', os.path.join(VERIF, 'work'))
 GUARD = 'DEPCCG_VERIF'
